@@ -13,6 +13,8 @@ import MpirProofs.Props.C07_gcdextdc2
 import MpirProofs.Lemmas.AliasMpfDiv
 import MpirProofs.Lemmas.AliasMpf2
 import MpirProofs.Lemmas.AliasPowm
+import MpirProofs.Lemmas.AliasMisc
+import MpirProofs.Lemmas.AliasMpf3
 namespace Mpir.AliasMem
 open Mpir
 
@@ -358,5 +360,87 @@ example : lookP (mpz_lcm 1 1 1 (ofInts [0, -(2^70*6), 7])) 3 = .ok [(0, 1, 0), (
 example : (lookP (mpz_lcm 2 1 2 (ofInts [0, 2^70*6, -15])) 3).map (·.map (·.1)) = .ok [0, 2^70*6, 2^70*30] := by decide +kernel
 example : (mpz_invert 2 1 2 (ofInts [0, 6, 2^70*3])).map (fun r => (r.1, r.2.view 3)) =
     .ok (false, [(0, 1, 0), (6, 1, 1), (2^70*3, 2, 2)]) := by decide +kernel
+
+/-! ## mpz_root, mpz_remove, mpz_bin_ui -/
+
+/-- mpz_root (mpz/root.c), root = u or not, nth ≥ 1, u ≥ 0 or nth odd: the root is built in TMP space when root = u (:56-59:
+    mpn_rootrem's operands may not overlap) and copied back; the return value says whether the root is exact. -/
+theorem mpz_root_ptr_spec {s : St} (h : Inv s) {root u : Nat} (hr : root < s.nv) (hu : u < s.nv) (nth : Nat) (hn : 1 ≤ nth)
+    (hsgn : 0 ≤ s.value u ∨ nth % 2 = 1) :
+    ∃ s', mpz_root root u nth s = .ok (decide (Root.iroot nth (s.mag u) ^ nth = s.mag u), s') ∧ Inv s' ∧ s'.nv = s.nv ∧
+      s'.value root = sgnv (s.size u) (Root.iroot nth (s.mag u)) ∧ ∀ i, i < s.nv → i ≠ root → s'.value i = s.value i :=
+  mpz_root_ok h hr hu nth hn hsgn
+
+/-- mpz_remove (mpz/remove.c), every choice of dest, src, f: `f` is copied to the local fpow[0] BEFORE `mpz_set (dest, src)`
+    (:60-61 — the order that makes dest = f work), all divisions go through local variables; f ≤ 1 is DIVIDE_BY_ZERO (:33-34);
+    quotient and multiplicity are those of the value-level model `Numth.mpz_remove` (C09).  `1 ≤ ALLOC (dest)`: the f = 2 arm
+    ends in mpz_fdiv_q_2exp, which stores `PTR (w)[0]` without a realloc. -/
+theorem mpz_remove_ptr_spec {s : St} (h : Inv s) {dest src f : Nat} (hd : dest < s.nv) (hs : src < s.nv) (hf : f < s.nv)
+    (ha : 1 ≤ s.alloc dest) :
+    match Numth.mpz_remove (s.value src) (s.value f) with
+    | none => mpz_remove dest src f s = .error "div0"
+    | some (z, pwr) => ∃ s', mpz_remove dest src f s = .ok (pwr, s') ∧ Inv s' ∧ s'.nv = s.nv ∧ s'.value dest = z ∧
+        ∀ i, i < s.nv → i ≠ dest → s'.value i = s.value i :=
+  mpz_remove_ok h hd hs hf ha
+
+/- FULL statement wanted for mpz_bin_ui: as below without `hP`.  `hP` (`binPos …`) says that the ASSERT `SIZ (r) > 0` inside the
+   DIVIDE() macro (bin_ui.c:35) holds along the value-level run, i.e. that no intermediate quotient is 0 — true (the accumulated
+   product of j consecutive integers is divisible by j! and positive) but not proved here; it is decidable (`binPosDec`), the
+   examples below discharge it by evaluation. -/
+/-- mpz_bin_ui (mpz/bin_ui.c), r = n or not: ni is computed from n (into a local) BEFORE `SIZ (r) = 1; PTR (r)[0] = 1` (:75). -/
+theorem mpz_bin_ui_ptr_spec_partial {s : St} (h : Inv s) {r n : Nat} (hr : r < s.nv) (hn : n < s.nv) (ha : 1 ≤ s.alloc r) (k : Nat)
+    (hkB : k < B)
+    (hP : binPos (if binNi (s.value n) k < k then binNi (s.value n) k else k) (if binNi (s.value n) k < k then binNi (s.value n) k else k)
+      1 (if binNi (s.value n) k < k then k else binNi (s.value n) k) 1 1 1) :
+    ∃ s', mpz_bin_ui r n k s = .ok s' ∧ Inv s' ∧ s'.nv = s.nv ∧ s'.value r = Numth.mpz_bin_ui (s.value n) k ∧
+      ∀ i, i < s.nv → i ≠ r → s'.value i = s.value i :=
+  mpz_bin_ui_ok h hr hn ha k hkB hP
+
+example : lookN (mpz_root 1 1 3 (ofInts [0, (2^70+1)^3])) 2 = .ok (true, [(0, 1, 0), (2^70+1, 4, 1)], 2) := by decide +kernel
+example : lookN (mpz_rootV { rootInTmp := false } 1 1 3 (ofInts [0, (2^70+1)^3])) 2 = .error "ub:mpn_rootrem operands overlap" := by
+  decide +kernel
+-- dest = f: 3^50 removed from -(3^50 · 7 · 2^70); with `mpz_set (dest, src)` BEFORE the copy of f the answer is wrong
+example : (lookN (mpz_remove 2 1 2 (ofInts [0, -(3^50 * 7 * 2^70), 3])) 3).map (fun r => (r.1, r.2.1.getD 2 default)) =
+    .ok (50, (-(7 * 2^70), 3, 6)) := by decide +kernel
+example : (lookN (mpz_removeV { copyFFirst := false } 2 1 2 (ofInts [0, -(3^50 * 7 * 2^70), 3])) 3).map (fun r => r.1) = .ok 1 := by
+  decide +kernel
+example : (lookP (mpz_bin_ui 1 1 30 (ofInts [0, 2^70+3])) 2).map (·.map (·.1)) = .ok [0, Numth.mpz_bin_ui (2^70+3) 30] := by decide +kernel
+example : binPos 30 30 1 (2^70 + 3 - 30) 1 1 1 := by decide +kernel
+example : lookP (mpz_bin_uiV { niBeforeR := false } 1 1 5 (ofInts [0, 2^70])) 2 = .ok [(0, 1, 0), (1, 2, 1)] := by decide +kernel
+
+/-! ## mpf_floor / mpf_ceil / mpf_trunc, mpf_mul_2exp / mpf_div_2exp, mpf_ui_div -/
+
+/-- mpf_floor, mpf_ceil (mpf/ceilfloor.c), mpf_trunc (mpf/trunc.c), r = u or not, operands of any length: the fraction limbs are
+    scanned (and the ±1 added into r) BEFORE the integer limbs are moved down inside the block with MPN_COPY_INCR — the
+    function family of the seeded defect C05_b_3. -/
+theorem mpf_floor_ceil_trunc_ptr_spec {s : FSt} (h : FInv s) {r u : Nat} (hr : r < s.st.nv) (hu : u < s.st.nv) :
+    (∃ s', mpf_floor r u s = .ok s' ∧ FRes s s' r (Mpf.floor (s.prec r) (s.F u))) ∧
+    (∃ s', mpf_ceil r u s = .ok s' ∧ FRes s s' r (Mpf.ceil (s.prec r) (s.F u))) ∧
+    (∃ s', mpf_trunc r u s = .ok s' ∧ FRes s s' r (Mpf.trunc (s.prec r) (s.F u))) :=
+  ⟨mpf_floor_ok h hr hu, mpf_ceil_ok h hr hu, mpf_trunc_ok h hr hu⟩
+
+/-- mpf_mul_2exp / mpf_div_2exp (mpf/mul_2exp.c, mpf/div_2exp.c), r = u or not: whole-limb shifts are an MPN_COPY_INCR of the
+    top limbs, bit shifts go through mpn_rshift by 64 - k into rp + 1 when u is longer than PREC (so that source and
+    destination overlap in the permitted direction) and mpn_lshift otherwise.  `1 ≤ PREC (r)`: never smaller in the library. -/
+theorem mpf_2exp_ptr_spec {s : FSt} (h : FInv s) {r u : Nat} (hr : r < s.st.nv) (hu : u < s.st.nv) (e : Nat) (hp : 1 ≤ s.prec r) :
+    (∃ s', mpf_mul_2exp r u e s = .ok s' ∧ FRes s s' r (Mpf.mul_2exp (s.prec r) (s.F u) e)) ∧
+    (∃ s', mpf_div_2exp r u e s = .ok s' ∧ FRes s s' r (Mpf.div_2exp (s.prec r) (s.F u) e)) :=
+  ⟨mpf_mul_2exp_ok h hr hu e hp, mpf_div_2exp_ok h hr hu e hp⟩
+
+/-- mpf_ui_div (mpf/ui_div.c), r = v or not, v ≠ 0: the divisor is copied when `rp == vp` (:96-100), the dividend u·B^zeros is
+    built in TMP space. -/
+theorem mpf_ui_div_ptr_spec {s : FSt} (h : FInv s) {r v : Nat} (hr : r < s.st.nv) (hv : v < s.st.nv) {u : Nat} (huB : u < B)
+    (hvz : s.st.size v ≠ 0) :
+    ∃ s' f, mpf_ui_div r u v s = .ok s' ∧ Mpf.ui_div (s.prec r) u (s.F v) = .ok f ∧ FRes s s' r f :=
+  mpf_ui_div_ok h hr hv huB hvz
+
+-- the C05_b_3 pattern: ceil in place of 5.0 held as {0, 5} with exponent 1 (one fraction limb, zero): 5, not 6
+example : lookF (mpf_ceil 0 0 (ofFs [⟨2, 2, 1, [0, 5]⟩])) 1 = .ok [⟨2, 1, 1, [5]⟩] := by decide +kernel
+example : lookF (mpf_ceilfloorV { scanBeforeMove := false } 0 0 1 (ofFs [⟨2, 2, 1, [0, 5]⟩])) 1 = .ok [⟨2, 1, 1, [6]⟩] := by decide +kernel
+example : errOfF (mpf_truncV { copyIncr := false } 0 0 (ofFs [⟨2, 5, 9, [0, 2, 3, 4, 5]⟩])) = "ub:MPN_COPY_DECR overlap" := by decide +kernel
+example : errOfF (mpf_2expV { rshiftWhenLong := false } true 0 0 3 (ofFs [⟨2, 3, 9, [2, 3, 4]⟩])) = "ub:mpn_lshift overlap" := by
+  decide +kernel
+example : errOfF (mpf_ui_divV { copyV := false } 0 7 0 (ofFs [⟨2, -4, 3, [5, 6, 7, 8]⟩])) = "ub:mpn_tdiv_qr operands overlap" := by
+  decide +kernel
 
 end Mpir.AliasMem
